@@ -44,7 +44,10 @@ class ManifestEntryTIMESTAMP:
         return cls(ts)
 
     def to_list(self):
-        return (self.tag, self.ts.strftime('%Y-%m-%dT%H:%M:%SZ'))
+        # NB: strftime('%Y') does not zero-pad years below 1000
+        return (self.tag,
+                f'{self.ts.year:04d}'
+                + self.ts.strftime('-%m-%dT%H:%M:%SZ'))
 
     def __eq__(self, other):
         return self.tag == other.tag and self.ts == other.ts
